@@ -76,12 +76,25 @@ def drv_seq(keys, seq):
     return snaps, e, s, lib.blocks
 
 
-def mk_mw(kind, order=None, cs=None):
+def mk_mw(kind, order=None, cs=None, inplace=True):
     if kind == "alpha":
-        return SortFieldsAlphabeticallyMiddleware(True)
+        return SortFieldsAlphabeticallyMiddleware(inplace)
     if kind == "norm":
-        return NormalizeFieldKeys(True)
-    return SortFieldsCustomMiddleware(order=tuple(order), case_sensitive=cs, allow_inplace_modification=True)
+        return NormalizeFieldKeys(inplace)
+    return SortFieldsCustomMiddleware(order=tuple(order), case_sensitive=cs, allow_inplace_modification=inplace)
+
+
+def drv_copy(keys, kind, order, cs):
+    """copy mode (allow_inplace_modification=False): the returned library holds what the in-place mode leaves in the
+    input - same entry type, key, fields - and the input library is as it was"""
+    e, s, lib = mk_lib(keys)
+    before = [e.entry_type, e.key, snapshot(e), s.key, s.value]
+    out = mk_mw(kind, order, cs, False).transform(lib)
+    after = [e.entry_type, e.key, snapshot(e), s.key, s.value]
+    f, fs, flib = mk_lib(keys)
+    mk_mw(kind, order, cs, True).transform(flib)
+    desc = lambda bl: [(type(b), getattr(b, "entry_type", None), b.key, snapshot(b) if isinstance(b, Entry) else b.value, b.start_line) for b in bl]
+    return before, after, desc(out.blocks), desc(flib.blocks), out is not lib and all(x is not y for x in out.blocks for y in lib.blocks)
 
 
 def drv_reuse(keys, keys2, kind, order, cs):
@@ -324,6 +337,38 @@ def task_norm_shared():
     return rec.result(worlds=len(worlds))
 
 
+def task_copy(lens, kind, cs=None):
+    eng = Engine()
+    rec = Recorder(eng)
+    keys = sym_keys(eng, lens)
+    order = ("b", "A") if kind == "custom" else None
+    E = eng.I.models.eq_simple
+    worlds = eng.run(drv_copy, [keys, kind, order, cs])
+
+    def rp(m):
+        import logging
+        logging.disable(logging.CRITICAL)
+        ks = eng.model_value(m, keys)
+        try:
+            before, after, got, exp, fresh = drv_copy(ks, kind, order, cs)
+        except Exception as ex:  # noqa
+            from pysym.harness import guard_repo_exception
+            guard_repo_exception(ex)
+            return {"input": [ks, kind, cs], "observed": f"raised {type(ex).__name__}: {ex}", "expected": "no exception"}
+        if before == after and got == exp and fresh:
+            return None
+        return {"input": [ks, kind, cs], "observed": {"copy mode": str(got), "input after": after, "new objects": fresh},
+                "expected": {"as in-place mode": str(exp), "input before": before}}
+    for W in worlds:
+        if W.exc is not None:
+            rec.require(W, True, "copy-no-exception", rp)
+            continue
+        before, after, got, exp, fresh = W.result
+        rec.require(W, b_not(b_all([fresh is True, E(before, after), len(got) == len(exp) and E(got, exp)])), "copy-mode-same-result", rp)
+        rec.witness("copy-mode", W)
+    return rec.result(worlds=len(worlds))
+
+
 def task_reuse(lens, kind, cs=None):
     """keys2 = the keys of the first entry with the case of every letter swapped (what a cache keyed without regard to
     case, or by position, would confuse)"""
@@ -441,7 +486,7 @@ def main():
     chk.bounds = {"fields": f"0..{nmax} fields, every key a symbolic string of 1 or 2 characters over {KS!r}",
                   "custom order": "0..3 symbolic keys (1-2 chars), case_sensitive in {True, False}"}
     chk.assumptions = ["keys longer than 2 characters / other letters and more fields are outside the claim", "values are distinct tags (values are never inspected by the middlewares)"]
-    chk.expected_vacuity = ["alpha-reordered", "custom-reordered", "order-rejected", "keys-merged", "instance-reused", "shared-field"]
+    chk.expected_vacuity = ["alpha-reordered", "custom-reordered", "order-rejected", "keys-merged", "instance-reused", "shared-field", "copy-mode"]
     for n in range(nmax, -1, -1):
         for lens in itertools.product((1, 2), repeat=n):
             if n >= 4 and sum(lens) > n + 1:
@@ -467,6 +512,10 @@ def main():
     for lens in ((1, 1, 1), (1, 1)):
         for kind, cs in (("alpha", None), ("norm", None), ("custom", True), ("custom", False)):
             chk.add_task(f"reuse-{kind}-cs{cs}-{len(lens)}", task_reuse, lens=lens, kind=kind, cs=cs)
+    chk.bounds["copy mode"] = "each middleware with allow_inplace_modification=False on entries of 0..3 fields (1-2 char symbolic keys): result equals the in-place result (type, key, fields, other block), made of new objects, input untouched"
+    for lens in ((), (1,), (1, 1), (2, 1), (1, 1, 1), (1, 2, 1)):
+        for kind, cs in (("alpha", None), ("norm", None), ("custom", True), ("custom", False)):
+            chk.add_task(f"copy-{kind}-cs{cs}-{''.join(map(str, lens)) or 'none'}", task_copy, lens=lens, kind=kind, cs=cs)
     chk.run()
 
 
